@@ -76,15 +76,17 @@ type mScene struct {
 	holdM      bool           // keep dropping M's own parent updates during the adversarial phase
 	ledMoved   bool           // hub points: the victim accepted a crafted update of its channel with M (the real M did not: no probe there)
 	// hub points: the victim is the hub between M (Alice) and the honest real client B (Bob)
-	B          *Party
-	ledB       *client.Channel                             // V's ledger channel with B
-	mledB      *client.Channel                             // B's side of it
-	realVFund  *client.VirtualChannelFundingProposalMsg    // M's real funding proposal to the hub (intercepted)
-	realVSet   *client.VirtualChannelSettlementProposalMsg // M's real settlement proposal to the hub (intercepted)
-	bobSent    bool                                        // B's own funding / settlement proposal is on its way to the hub
-	threadErrs []string
-	seq        byte
-	views      map[channel.ID]*mChanView // the victim's channels at the start of the adversarial phase
+	B             *Party
+	ledB          *client.Channel                             // V's ledger channel with B
+	mledB         *client.Channel                             // B's side of it
+	parentAtFinal *channel.State                              // await-subsettle-paid: the parent state when the sub-channel was finalised
+	vfunds        []*client.VirtualChannelFundingProposalMsg  // hub-two: M's funding proposals of the two virtual channels
+	realVFund     *client.VirtualChannelFundingProposalMsg    // M's real funding proposal to the hub (intercepted)
+	realVSet      *client.VirtualChannelSettlementProposalMsg // M's real settlement proposal to the hub (intercepted)
+	bobSent       bool                                        // B's own funding / settlement proposal is on its way to the hub
+	threadErrs    []string
+	seq           byte
+	views         map[channel.ID]*mChanView // the victim's channels at the start of the adversarial phase
 }
 
 // signed returns the last state of one of the victim's channels that became current at the victim
@@ -323,7 +325,7 @@ func (sc *mScene) setup() error {
 		vsched.WaitCond("await-funding-update", func() bool { return sc.realFund != nil })
 		fund := sc.realFund.State.Locked[len(sc.realFund.State.Locked)-1]
 		sc.pend = append(sc.pend, pendingAuto{Kind: "fund", ID: fund.ID, Bals: mAlloc(w.Asset, subBals...).Balances})
-	case "await-subsettle", "await-subsettle2":
+	case "await-subsettle", "await-subsettle2", "await-subsettle-paid":
 		if base == "await-subsettle2" {
 			if err := sc.addSub(); err != nil {
 				return err
@@ -338,6 +340,14 @@ func (sc *mScene) setup() error {
 		}
 		sc.syncViews()
 		sc.subFinal = sc.signed(vsub)
+		if base == "await-subsettle-paid" {
+			// the parent moves on between the finalisation of the sub-channel (the victim registers what
+			// settlement it expects) and the victim's Settle: M pays the victim 2 in the parent
+			sc.parentAtFinal = sc.signed(sc.led)
+			if err := upd(sc.mled, pay(int(sc.mled.Idx()), 2, false)); err != nil {
+				return fmt.Errorf("parent payment after finalisation: %w", err)
+			}
+		}
 		sc.snapshot()
 		sc.pend = append(sc.pend, pendingAuto{Kind: "settle", ID: vsub.ID(), Bals: sc.subFinal.Balances.Clone()})
 		// the victim settles the final sub-channel and waits for the parent update
@@ -349,7 +359,7 @@ func (sc *mScene) setup() error {
 			}
 		})
 		vsched.Sleep(time.Second)
-	case "hub-fund", "hub-fund2", "hub-settle", "hub-settle2", "hub-fund-quiet", "hub-settle-quiet":
+	case "hub-fund", "hub-fund2", "hub-settle", "hub-settle2", "hub-fund-quiet", "hub-settle-quiet", "hub-two":
 		return sc.setupHub(base)
 	default:
 		return fmt.Errorf("unknown history point %q", pt)
@@ -381,13 +391,17 @@ func (sc *mScene) setupHub(base string) error {
 	// own well-formed proposal finds no partner at the hub
 	quiet := strings.HasSuffix(base, "-quiet")
 	sc.holdM = true
-	armed := !settle // hub-settle: the funding runs honestly, interception starts with the settlement
+	two := base == "hub-two"
+	armed := !settle && !two // hub-settle, hub-two: the funding runs honestly
 	w.Bus.Drop = func(e *wire.Envelope) bool {
 		switch m := e.Msg.(type) {
 		case *client.VirtualChannelFundingProposalMsg:
 			if !armed {
-				if w.partyOf(e.Sender) == sc.M.Idx && sc.realVFund == nil {
-					sc.realVFund = m // kept for its initial state and signatures
+				if w.partyOf(e.Sender) == sc.M.Idx {
+					if sc.realVFund == nil {
+						sc.realVFund = m // kept for its initial state and signatures
+					}
+					sc.vfunds = append(sc.vfunds, m)
 				}
 				return false
 			}
@@ -432,6 +446,31 @@ func (sc *mScene) setupHub(base string) error {
 	prop.ProposalID = mFixedID(0xBE)
 	// index map of the parent M - hub: Alice is M (index 0), Bob is represented by the hub (index 1)
 	wantMap := []channel.Index{0, 1}
+	if two {
+		// hub-two: two virtual channels M <-> B, (5,3) and (3,3), are opened honestly one after the other:
+		// the hub's channel with M ends at (2,4) with the locked sub-allocations [V1:8, V2:6]
+		prop2, err := client.NewVirtualChannelProposal(60, sc.M.Addr, mAlloc(w.Asset, 3, 3),
+			[]map[wallet.BackendID]wire.Address{sc.M.WireID, sc.B.WireID},
+			[]channel.ID{sc.mled.ID(), sc.mledB.ID()}, [][]channel.Index{{0, 1}, {1, 0}}, sc.M.nextNonce())
+		if err != nil {
+			return err
+		}
+		prop2.ProposalID = mFixedID(0xBD)
+		for i, p := range []*client.VirtualChannelProposalMsg{prop, prop2} {
+			ctx, cancel := context.WithTimeout(context.Background(), 30*time.Second)
+			nb := len(sc.B.Chans)
+			_, err := sc.M.C.ProposeChannel(ctx, p)
+			cancel()
+			if err != nil {
+				return fmt.Errorf("opening virtual channel %d: %w", i+1, err)
+			}
+			vsched.WaitCond("await-virtual-channel", func() bool { return len(sc.B.Chans) > nb })
+		}
+		if len(sc.vfunds) != 2 {
+			return fmt.Errorf("expected 2 funding proposals of M, saw %d", len(sc.vfunds))
+		}
+		return nil
+	}
 	if !settle {
 		vsched.GoNamed("m-propose-virtual", func() {
 			ctx, cancel := context.WithTimeout(context.Background(), 30*time.Second)
